@@ -208,12 +208,23 @@ func reifyMap(opts *options, to reflect.Value, from *Config, validators []valida
 		return raiseKeyInvalidTypeUnpack(to.Type(), from)
 	}
 
+	fields := from.fields.dict()
+
 	if to.IsNil() {
 		to.Set(reflect.MakeMap(to.Type()))
+	} else if opts.configValueHandling == cfgReplaceValue && len(fields) > 0 && to.Len() > 0 {
+		// replace policy: old dictionaries are replaced, the map holds the new
+		// entries alone (a map that can not be exchanged is emptied)
+		if to.CanSet() {
+			to.Set(reflect.MakeMap(to.Type()))
+		} else {
+			for _, key := range to.MapKeys() {
+				to.SetMapIndex(key, reflect.Value{})
+			}
+		}
 	}
 	tryInitDefaults(to)
 
-	fields := from.fields.dict()
 	if len(fields) == 0 {
 		if err := tryRecursiveValidate(to, opts, validators); err != nil {
 			return raiseValidation(from.ctx, from.metadata, "", err)
